@@ -114,6 +114,7 @@ fn step(w: &mut World, op: &J, how: usize, rest: &[J]) -> Result<(), String> {
         "new" => { let s = slot_ix(&op["s"]); w.slots[s] = Some(match (op["what"].as_str().unwrap(), how % 4) {
             ("arr", 0) => sjson!([]), ("arr", 1) => Value::new_array_with(0), ("arr", 2) => Value::new_array_with(5), ("arr", _) => sonic_rs::Array::new().into_value(),
             ("obj", 0) => sjson!({}), ("obj", 1) => Value::new_object_with(0), ("obj", 2) => Value::new_object_with(5), ("obj", _) => sonic_rs::Object::new().into_value(),
+            ("null", 0) => sjson!(null), ("null", 1) => Value::new_null(), ("null", 2) => Value::default(), ("null", _) => Value::new(),
             (_, 0) => sjson!(7), (_, 1) => Value::new_u64(7), (_, 2) => Value::from(7u8), (_, _) => Value::new_i64(7) }); }
         "build" => { let s = slot_ix(&op["s"]); w.slots[s] = Some(match (op["what"].as_str().unwrap(), how % 4) {
             ("obj1", 0) => sjson!({"a": 8}), ("obj1", 1) => { let mut o = Value::new_object_with(1); o.insert("a", Value::new_u64(8)); o }
@@ -149,6 +150,23 @@ fn step(w: &mut World, op: &J, how: usize, rest: &[J]) -> Result<(), String> {
             let tgt = nav(w.slots[s].as_mut().ok_or("probe: empty slot")?, &p, how).ok_or("probe: path does not resolve")?;
             let hit = if how % 2 == 0 { tgt.pointer_mut(e.iter()).is_some() } else { match &e[0] { PointerNode::Key(k) => tgt.get_mut(k.as_str()).is_some(), PointerNode::Index(i) => tgt.get_mut(*i).is_some() } };
             if hit { return Err("probe: a lookup the reference cannot resolve returned a value".into()); }
+            // IndexMut where it is documented to panic (an index into anything but an array that is long enough; a key into a value
+            // that is neither object nor null): the panic is the rejection, and (checked by the observation) nothing changes
+            let wrong_kind = match &e[0] { PointerNode::Index(_) => true, PointerNode::Key(_) => !tgt.is_object() && !tgt.is_null() };
+            if wrong_kind && how % 3 == 2 {
+                let r = match &e[0] { PointerNode::Index(i) => { let i = *i; catch(move || { tgt[i] = sjson!(1); }) } PointerNode::Key(k) => { let k = k.to_string(); catch(move || { tgt[k.as_str()] = sjson!(1); }) } };
+                if r.is_ok() { return Err("probe: IndexMut accepted an index the reference rejects".into()); }
+            }
+        }
+        "index_null" => {
+            // value[key] = x on a null: it becomes {key: x}
+            let s = slot_ix(&op["s"]);
+            let p = ptr_of(&op["p"]);
+            let key = op["key"].as_str().unwrap().to_string();
+            let arg: Value = match op["src"].as_str().unwrap() { "lit" => sjson!(7), q => w.slots[slot_ix(&json!(q))].take().ok_or("index_null: empty source slot")? };
+            let tgt = nav(w.slots[s].as_mut().ok_or("index_null: empty slot")?, &p, how).ok_or("index_null: path does not resolve")?;
+            if !tgt.is_null() { return Err("index_null: the value at the path is not null".into()); }
+            catch(move || { tgt[key.as_str()] = arg; }).map_err(|p| format!("index_null: panicked: {p}"))?;
         }
         "split_off" => {
             let (s, o) = (slot_ix(&op["s"]), slot_ix(&op["o"]));
